@@ -200,10 +200,7 @@ theorem driver_step_g {file : Bytes} {crs ncols : Nat} {im : List Nat} {hrow : L
       unfold mu
       have hle : maxrow ≤ rows.length := by omega
       have := need_double hinv.maxpos hle
-      have h2 : maxrow * Gen.Csv.LARGER_FACTOR = 2 * maxrow := by
-        show maxrow * 2 = 2 * maxrow
-        omega
-      rw [h2]
+      rw [Nat.mul_comm maxrow Gen.Csv.LARGER_FACTOR]
       omega
   · -- the value budget of column `j` filled: twice the budget, resume inside the window
     have hsh := hinv.shape
@@ -211,14 +208,15 @@ theorem driver_step_g {file : Bytes} {crs ncols : Nat} {im : List Nat} {hrow : L
     have hb := offs_get hsh.offsLen (c := j + 1) (by omega)
     have hstep := afterKernel_vals (ncols := ncols) (content := readWindow file (bnd hrow rows q) w)
       (start := bnd hrow rows e - bnd hrow rows q) hwneg himp hif hvf hvfc ha hb
-    have hδ : (offAt s.offs (j + 1) - offAt s.offs j) * (Gen.Csv.LARGER_FACTOR - 1) = offAt s.offs (j + 1) - offAt s.offs j := by
-      show _ * (2 - 1) = _
+    have hδ : (offAt s.offs (j + 1) - offAt s.offs j) + (offAt s.offs (j + 1) - offAt s.offs j) * (Gen.Csv.LARGER_FACTOR - 1) =
+        Gen.Csv.LARGER_FACTOR * (offAt s.offs (j + 1) - offAt s.offs j) := by
+      obtain ⟨k, hk⟩ : ∃ k, Gen.Csv.LARGER_FACTOR = k + 1 := ⟨Gen.Csv.LARGER_FACTOR - 1, by have := larger_factor_ge; omega⟩
+      rw [hk, Nat.add_sub_cancel, Nat.succ_mul, Nat.mul_comm k]
       omega
-    rw [hδ] at hstep
-    generalize hoffs' : growOffs s.offs j (offAt s.offs (j + 1) - offAt s.offs j) = offs' at hstep
+    generalize hδv : (offAt s.offs (j + 1) - offAt s.offs j) * (Gen.Csv.LARGER_FACTOR - 1) = δ at hstep hδ
+    generalize hoffs' : growOffs s.offs j δ = offs' at hstep
     have hlen' : offs'.length = ncols + 1 := by rw [← hoffs', growOffs_length]; exact hsh.offsLen
-    have hat : ∀ c, c ≤ ncols → offAt offs' c =
-        offAt s.offs c + (if j < c then offAt s.offs (j + 1) - offAt s.offs j else 0) := by
+    have hat : ∀ c, c ≤ ncols → offAt offs' c = offAt s.offs c + (if j < c then δ else 0) := by
       intro c hc
       rw [← hoffs']
       exact growOffs_at hsh.offsLen j _ c hc
@@ -261,8 +259,9 @@ theorem driver_step_g {file : Bytes} {crs ncols : Nat} {im : List Nat} {hrow : L
           have h1 : ¬ j < j := Nat.lt_irrefl _
           have h2 : j < j + 1 := Nat.lt_succ_self _
           simp only [h1, h2, if_true, if_false, Nat.add_zero]
-          have h3 : offAt s.offs (j + 1) + (offAt s.offs (j + 1) - offAt s.offs j) - offAt s.offs j =
-              2 * (offAt s.offs (j + 1) - offAt s.offs j) := by omega
+          have h3 : offAt s.offs (j + 1) + δ - offAt s.offs j =
+              Gen.Csv.LARGER_FACTOR * (offAt s.offs (j + 1) - offAt s.offs j) := by
+            rw [← hδ]; omega
           rw [h3, need_double (by omega) hbudle]
           exact Nat.le_refl _)
         (by
